@@ -765,6 +765,14 @@ func (e *Enc) structPlace(addr string, t types.Type, out map[string][]string) {
 // Assumptions are reported in the evidence (explicit_assumptions).
 func (e *Enc) siteClauses(cur *cursor, callee string, args []Val, pos token.Pos) {
 	top := cur.fc
+	inlined := false
+	if !top.isTop && e.topFc != nil && (top.contract == nil || len(top.contract.Asserts) == 0) {
+		// a call made by a small helper that is inlined into the function under contract (for example
+		// after an extract-helper refactoring) is a site of that function: its site clauses apply, read
+		// with the function's variables, overlaid by the helper's own parameters and locals
+		top = e.topFc
+		inlined = true
+	}
 	if top.contract == nil || len(top.contract.Asserts) == 0 {
 		return
 	}
@@ -773,7 +781,13 @@ func (e *Enc) siteClauses(cur *cursor, callee string, args []Val, pos token.Pos)
 		if cl.Site != callee && cl.Site != fmt.Sprintf("%s#%d", callee, k) {
 			continue
 		}
-		sc := e.specCtx(cur.fc, cur.st, cur.guard)
+		sc := e.specCtx(top, cur.st, cur.guard)
+		if inlined {
+			inner := e.specCtx(cur.fc, cur.st, cur.guard)
+			for name, v := range inner.vars {
+				sc.vars[name] = v
+			}
+		}
 		for i, a := range args {
 			if a.K == vTerm {
 				sc.vars[fmt.Sprintf("arg%d", i)] = SV{T: a.T, Ty: a.Ty}
@@ -959,6 +973,7 @@ func (m *Model) verifyFunc(name string, ct *Contract) (*Enc, error) {
 	e := newEnc(m, fn, ct)
 	e.emitAxioms()
 	fc := &fctx{fn: fn, vals: map[ssa.Value]Val{}, freevars: map[*ssa.FreeVar]Val{}, isTop: true, contract: ct, namedLoc: map[string][]*ssa.Alloc{}}
+	e.topFc = fc
 	st := newState()
 	fc.entrySt = newState()
 	e.declare("(declare-const $alloc@in Int)")
